@@ -36,6 +36,8 @@ def run_cfg(chk, facts, cfg):
         return
     nf = sm.nf
     cnt = {'add': 0, 'inherent_add': 0, 'add_assign': 0, 'fields': 0, 'queries': 0}
+    from ..overrides import obligation as no_overrides
+    no_overrides(chk, PID, facts, sfx, [x['path'] for x in facts.raw['adts'] if x.get('exported') and x['path'].split('::')[-1] in ('Arithmetic', 'Harmonic', 'Geometric', 'Paired', 'Unpaired', 'Stats', 'KahanSum')], 'state types (Clone, PartialEq, Add, AddAssign)')
 
     def summ(fn, names, args):
         sx = Summarizer(facts, assume_no_overflow=True)
